@@ -29,6 +29,19 @@ def plan(tier):
     return 700 if tier == 'quick' else 12000
 
 
+# second workload: the Rock Ridge images the repository's own tests master (harness/suite.py)
+SUITE_TIERS = ('quick', 'thorough')
+
+
+def suite_oracle(data):
+    from harness.indep import ecma119 as _e, susp as _s
+    dec = _e.decode(data)
+    if dec.pvd is None:
+        return []
+    rr = _s.decode(data, dec)
+    return [{'key': k, 'detail': d} for k, d in rr.problems] if rr.present else []
+
+
 def expected_tree(model):
     mv = model.view('rr')
     out = {}
@@ -248,6 +261,9 @@ def gen_reopen_ops(h, cs, g, deep):
 
 
 def run_case(i, seed, tier):
+    if i >= plan(tier):
+        from harness import suite
+        return suite.run_slot(PROPERTY, i - plan(tier), suite_oracle)
     counters = {}
     cs = seed * 1000003 + i
     g = Gen(cs, 'names')
@@ -307,6 +323,9 @@ def run_case(i, seed, tier):
 
 
 def replay(doc):
+    if doc.get('suite_image'):
+        from harness import suite
+        return suite.replay(doc, suite_oracle)
     cfg, ops, seed = common.doc_cfg_ops(doc)
     ops2 = driver.ops_from_json(doc.get('ops2') or [])
     vio, _ = run_ops(cfg, ops, seed, {}, ops2 or None)
